@@ -156,3 +156,81 @@ def validate_standard(histories, scratch: Path, tag="std"):
              "tie_iterations": sum(1 for p in packed for e in p if e["ev"] == "iter"
                                    and len(set(e["live_ranks"])) < len(e["live_ranks"]))}
     return records, stats, packed
+
+
+# ---------------------------------------------------------------------------
+# importance nested sampler
+
+INS_TRACE_CFG = """SPECIFICATION TraceSpec
+CONSTANTS
+  NInit = {ninit}
+  NLive = 0
+  DrawConstant = FALSE
+  Iid = {iid}
+  MinIt = 0
+  MaxIt = 0
+  NCrit = {ncrit}
+  StopAny = FALSE
+  MaxStops = 0
+CHECK_DEADLOCK FALSE
+"""
+
+
+def ins_spec(model="gauss2", seed=1, nlive=100, kills=(), run_again=0, save=None, resume_after_done=0, **kw):
+    kwargs = {"flow_config": {"n_blocks": 2, "n_neurons": 8},
+              "training_config": {"max_epochs": 20, "patience": 5},
+              "min_samples": max(10, nlive // 5), "max_iteration": 6,
+              "checkpoint_on_iteration": True, "checkpoint_interval": 1}
+    kwargs.update(kw)
+    return {"kind": "ins", "model": model, "seed": seed, "nlive": nlive, "kwargs": kwargs,
+            "kills": list(kills), "run_again": run_again, "save": save,
+            "resume_after_done": resume_after_done}
+
+
+def validate_ins(histories, scratch: Path, tag="ins"):
+    from .pack_ins import pack_ins
+
+    packed = [pack_ins(load_events([f for f in h["events"] if os.path.exists(f)])) for h in histories]
+    groups = {}
+    for i, h in enumerate(histories):
+        kw = h["spec"]["kwargs"]
+        ninit = kw.get("n_initial") or h["spec"]["nlive"]
+        crit = kw.get("stopping_criterion", "ratio")
+        ncrit = len(crit) if isinstance(crit, list) else 1
+        groups.setdefault((ninit, bool(kw.get("draw_iid_live", True)), ncrit), []).append(i)
+    records, states, trans, done = [], 0, 0, set()
+    for (ninit, iid, ncrit), idxs in groups.items():
+        events, windows = [], []
+        for i in idxs:
+            windows.append([len(events) + 1, len(events) + len(packed[i])])
+            events.extend(packed[i])
+        name = f"{tag}_{ninit}_{int(iid)}_{ncrit}"
+        tf = scratch / f"trace_{name}.json"
+        tf.write_text(json.dumps({"ev": events, "win": windows}))
+        cfg = scratch / f"trace_{name}.cfg"
+        cfg.write_text(INS_TRACE_CFG.format(ninit=ninit, iid="TRUE" if iid else "FALSE", ncrit=ncrit))
+        res = run_tlc("TraceImportanceSampler", str(cfg), workers=min(NCPU, max(1, len(idxs))),
+                      metadir=scratch / f"mt_{name}", env={"TRACE_FILE": str(tf)},
+                      collect_prefix="TR", timeout=3000)
+        if not res.ok:
+            raise MachineryError(f"INS trace validation ({name}) failed to run: {res.error}\n"
+                                 + "\n".join(res.stdout.splitlines()[-40:]))
+        states += res.distinct
+        trans += res.generated
+        for r in res.printed:
+            hi = idxs[r["tid"] - 1]
+            if r["k"] == "done":
+                done.add(hi)
+                continue
+            off = r["l"] - windows[r["tid"] - 1][0]
+            records.append({"k": r["k"], "p": r["p"], "c": r["c"], "h": hi, "l": off,
+                            "ev": packed[hi][off] if 0 <= off < len(packed[hi]) else None})
+    if len(done) != len(histories):
+        raise MachineryError(f"only {len(done)}/{len(histories)} INS traces were consumed by TLC")
+    stats = {"states": states, "transitions": trans, "events": sum(len(p) for p in packed),
+             "iterations": sum(1 for p in packed for e in p if e["ev"] == "ins_iter"),
+             "checkpoints": sum(1 for p in packed for e in p if e["ev"] == "ckpt"),
+             "resumes": sum(1 for p in packed for e in p if e["ev"] == "resume"),
+             "samples_checked": sum(e["tr"]["n"] + e["iid"]["n"] for p in packed for e in p
+                                    if e["ev"] in ("ins_iter", "ins_final", "resume"))}
+    return records, stats, packed
